@@ -430,6 +430,15 @@ class TFLiteSemantic:
     @staticmethod
     def constraint_quant_scale_inf(op):
         "Input and Output tensors must have quantization scales that fit within float32 precision"
+        for tens in (op.ifm, op.ifm2, op.weights):
+            # zero, negative and denormal scales of the inputs are as unusable as those of the output
+            if tens is not None and tens.is_quantized() and tens.quantization.scale_f32 is not None:
+                if np.any(tens.quantization.scale_f32 < np.finfo(np.float32).tiny):
+                    return (
+                        False,
+                        f"The quantization scale of tensor '{tens.name}' is {tens.quantization.scale_f32}, "
+                        + f"minimum supported is: {np.finfo(np.float32).tiny}",
+                    )
         if op.ofm is not None and op.ofm.is_quantized():
             ofm_scale = op.ofm.quantization.scale_f32
             if np.any(ofm_scale < np.finfo(np.float32).tiny):
